@@ -73,7 +73,12 @@ def random_steps(rng, n, multi):
 
     def page_motif():
         return [("post", x) for x in rng.sample(["page-down", "page-up", "half-page-down", "half-page-up", "down", "up", "last", "first"], 5)]
-    for _ in range(n):
+    multi_on_at = rng.randrange(2, max(3, n)) if (multi is None and rng.random() < 0.6) else -1
+    for k in range(n):
+        if k == multi_on_at:
+            # a session started in single-selection mode switches multi-selection on half-way
+            steps.append(("post", rng.choice(["change-multi", "change-multi(2)", "change-multi(5)"])))
+            steps.append(("post", rng.choice(["toggle", "toggle+down", "down", "select-all"])))
         r = rng.random()
         if r < 0.12:
             steps.extend(motif())
